@@ -7,11 +7,11 @@ use serde_json::{json, Value};
 
 fn lens(tier: Tier) -> Vec<usize> {
     let mut v: Vec<usize> = match tier {
-        Tier::Quick => (0..=600).collect(),
+        Tier::Quick => (0..=1500).collect(),
         Tier::Thorough => (0..=4100).collect(),
     };
     match tier {
-        Tier::Quick => v.extend([1023, 1024, 1025, 4095, 4096, 4097]),
+        Tier::Quick => v.extend([2047, 2048, 2049, 4095, 4096, 4097, 16385]),
         Tier::Thorough => v.extend([16383, 16384, 16385, 65535, 65536, 65537, (1 << 20) + 1]),
     }
     v
